@@ -67,7 +67,11 @@ func cleanupScratch() {
 }
 
 func runSolver(sp solverSpec, file string, timeoutS int) (string, string, float64) {
-	argv := sp.argv(file, timeoutS, solverSeed)
+	return runSolverSeed(sp, file, timeoutS, solverSeed)
+}
+
+func runSolverSeed(sp solverSpec, file string, timeoutS int, seed int) (string, string, float64) {
+	argv := sp.argv(file, timeoutS, seed)
 	ctx, cancel := context.WithTimeout(context.Background(), time.Duration(timeoutS+2)*time.Second)
 	defer cancel()
 	cmd := exec.CommandContext(ctx, argv[0], argv[1:]...)
